@@ -43,7 +43,7 @@ def _mm(A, B):
     return [[lxor_all([land(A[i][k], B[k][j]) for k in range(len(B))]) for j in range(len(B[0]))] for i in range(len(A))]
 
 
-def _routine_obligations(ctx, f2, A, A0, m, n, tag=""):
+def _routine_obligations(ctx, f2, A, A0, m, n, tag="", light=False):
     """run rref / rank / rref_and_basis_change / null_space on A (entries = literals A0) and state every
     obligation of C18 against independent Boolean specs"""
     problems = []
@@ -81,7 +81,10 @@ def _routine_obligations(ctx, f2, A, A0, m, n, tag=""):
     obligation("rref result is in reduced row echelon form with the reported pivots", land_all(cons))
     ax0 = lor_all(_mv(A0, x)) ^ 1
     rx0 = lor_all(_mv(Rl, x)) ^ 1
-    obligation("rref preserves the row space (kernel equality for every vector x)", leq(ax0, rx0))
+    if not light:
+        obligation("rref preserves the row space (kernel equality for every vector x)", leq(ax0, rx0))
+    # (light mode, library-size shapes: row-space equality follows from the certificate M*A == RREF with M invertible,
+    #  stated below; the x-quantified formulation is hard for CDCL at 36 x 24)
     Al = _mat_lits(A, m, n, problems, "input after rref")
     obligation("rref does not modify its argument", land_all([leq(Al[r][c], A0[r][c]) for r in range(m) for c in range(n)]) if Al else 0)
     try:
@@ -124,9 +127,13 @@ def _routine_obligations(ctx, f2, A, A0, m, n, tag=""):
         else:
             inker = [lor_all(_mv(A0, Kl[i])) ^ 1 for i in range(n - k)]
             obligation("every returned vector lies in the kernel", land_all(inker))
-            comb = [lxor_all([land(x[free[i]], Kl[i][c]) for i in range(n - k)]) for c in range(n)]
-            spans = land_all([leq(comb[c], x[c]) for c in range(n)])
-            obligation("the returned vectors span exactly the kernel (every kernel vector is their combination)", lor(ax0 ^ 1, spans))
+            if not light:
+                comb = [lxor_all([land(x[free[i]], Kl[i][c]) for i in range(n - k)]) for c in range(n)]
+                spans = land_all([leq(comb[c], x[c]) for c in range(n)])
+                obligation("the returned vectors span exactly the kernel (every kernel vector is their combination)", lor(ax0 ^ 1, spans))
+            else:
+                ident = land_all([leq(Kl[i][free[j]], 1 if i == j else 0) for i in range(n - k) for j in range(n - k)])
+                obligation("the n-rank returned kernel vectors are independent (identity pattern on the free columns), hence a basis of the kernel", ident)
     return info
 
 
@@ -191,6 +198,87 @@ def _seq_job(job):
     res.violations = []
     res.leaves = res.leaves[:1]
     return dict(res=res.to_json(), cands=cands)
+
+
+def _large_job(job):
+    """shapes the library itself uses (up to 36 x 24): a seeded structured matrix (random low-rank product or
+    staircase) with k symbolic entries; all obligations as for the small shapes, plus agreement of the NATIVE routines
+    (machine integers) with the symbolic run on a model of every path"""
+    m, n, k, seed = job
+    f2 = loader.sym("f2_algebra")
+    f2n = loader.native("f2_algebra")
+    rnd = random.Random(seed)
+    style = seed % 3
+    if style == 0:
+        r = rnd.randrange(1, min(m, n) + 1)
+        P = [[rnd.randrange(2) for _ in range(r)] for _ in range(m)]
+        Q = [[rnd.randrange(2) for _ in range(n)] for _ in range(r)]
+        base = [[sum(P[i][t] * Q[t][j] for t in range(r)) % 2 for j in range(n)] for i in range(m)]
+    elif style == 1:
+        base = [[1 if (j >= i * n // m and (i + j) % 3 != 1) or j == (i * n) // m else 0 for j in range(n)] for i in range(m)]
+        base = base[::-1] if rnd.random() < 0.5 else base
+    else:
+        base = [[rnd.randrange(2) for _ in range(n)] for _ in range(m)]
+    cells = rnd.sample([(i, j) for i in range(m) for j in range(n)], k)
+    names = ["a_%d_%d" % c for c in cells]
+    core.tt_setup(names)
+    cands = []
+
+    def fn():
+        ctx = Ctx.cur
+        loader.reset_state("f2_algebra")
+        arr = np.empty((m, n), dtype=object)
+        A0 = [[base[i][j] for j in range(n)] for i in range(m)]
+        for i in range(m):
+            for j in range(n):
+                arr[i, j] = base[i][j]
+        for (i, j) in cells:
+            A0[i][j] = var("a_%d_%d" % (i, j))
+            arr[i, j] = mk((A0[i][j],))
+        A = symnp._wrap(arr, np.int8)
+        info = _routine_obligations(ctx, f2, A, A0, m, n, light=True)
+        env = ctx.model_env()
+        An = np.array([[int(core.evaluate(A0[i][j], env)) if A0[i][j] not in (0, 1) else A0[i][j] for j in range(n)] for i in range(m)], dtype=np.int8)
+        same = True
+        try:
+            Rn, pn = f2n.rref(An.copy())
+            same = same and [int(p) for p in pn] == info.get("pivots")
+            same = same and int(f2n.rank(An.copy())) == len(info.get("pivots") or [])
+            Kn = f2n.null_space(An.copy())
+            same = same and list(Kn.shape) == info.get("null_space_shape")
+        except Exception:
+            same = False
+        fixed = land_all([leq(A0[i][j], int(An[i, j])) for (i, j) in cells])
+        ctx.prove("native rref/rank/null_space (machine integers) agree with the symbolic run on a model of this path", lor(fixed ^ 1, 1 if same else 0))
+        return info
+    res = explore(fn)
+    for v in res.violations[:2]:
+        env = v["model"]
+        Am = [[base[i][j] for j in range(n)] for i in range(m)]
+        for (i, j) in cells:
+            Am[i][j] = int(bool(env.get("a_%d_%d" % (i, j), False)))
+        cands.append(dict(kind="matrix", m=m, n=n, dtype="int8", A=Am, label=v["label"]))
+    res.violations = []
+    res.leaves = res.leaves[:1]
+    return dict(res=res.to_json(), cands=cands)
+
+
+def _dtype_sweep(seed):
+    """concrete side condition: the native routines on seeded matrices in every integer / bool dtype against the
+    brute-force oracle used by replay -> list of failing cases"""
+    rnd = np.random.RandomState(seed)
+    bad = []
+    n_ok = 0
+    for _ in range(30):
+        m, n = rnd.randint(1, 6), rnd.randint(1, 6)
+        A = rnd.randint(0, 2, (m, n))
+        for dt in ("int8", "int16", "int32", "int64", "uint8", "uint16", "uint32", "uint64", "bool"):
+            ok, detail = replay(dict(kind="matrix", m=m, n=n, dtype=dt, A=A.tolist()))
+            if ok:
+                bad.append(dict(kind="matrix", m=m, n=n, dtype=dt, A=A.tolist(), label="native routines wrong for dtype %s: %s" % (dt, detail)))
+            else:
+                n_ok += 1
+    return bad, n_ok
 
 
 def _ops_job(job):
@@ -287,6 +375,8 @@ def run(tier, seed):
         shapes64 = [(m, n) for m in range(1, 5) for n in range(1, 5)]
     ck.bounds += ["every binary matrix of every shape in %s with nominal dtype int8 (all entries symbolic)" % (shapes,),
                   "shapes %s additionally with nominal dtype int64 (other branch of rref_and_basis_change)" % (shapes64,),
+                  "library-size shapes (36x24, 24x36, 34x24, 33x8, 16x16, 20x24, 12x24, 24x12): seeded structured matrices (low-rank products, staircases, random) with 4 symbolic entries each, incl. agreement of the NATIVE routines on a model of every path",
+                  "side condition (concrete): native routines in 9 integer/bool dtypes on seeded matrices against brute force",
                   "mat_mul/add/trf_* : shapes m,n<=3 (quick) / <=4 (thorough), row indices symbolic",
                   "history: two-call sequences (all routines on a first symbolic matrix, obligations on a second) for pairs of small shapes (m*n<=4 quick, <=6 thorough)"]
     ck.outside += ["fully symbolic matrices larger than the listed shapes (the library uses up to 36x24; path count grows ~x8 per row/column)",
@@ -319,6 +409,17 @@ def run(tier, seed):
         ck.add("sequence %s then %s" % job, res, sample=0)
         for c in r["cands"][:3]:
             cands.append(("%s first=%s A=%s" % (c["label"][:70], c["first"], c["A"]), c, "%s: after the routines ran on %s, A=%s" % (c["label"], c["first"], c["A"])))
+    big = [(36, 24), (24, 36), (34, 24), (33, 8), (16, 16), (20, 24), (12, 24), (24, 12)]
+    ljobs = [(mm, nn, 4, seed * 100 + i * 7 + t) for i, (mm, nn) in enumerate(big) for t in range(3 if tier == "quick" else 12)]
+    for job, r in harness.pmap(_large_job, ljobs):
+        res = core.Result.from_json(r["res"])
+        ck.add("library-size shape %dx%d" % job[:2], res, sample=0)
+        for c in r["cands"][:2]:
+            cands.append(("%s %dx%d %s" % (c["label"][:60], c["m"], c["n"], hash(str(c["A"])) & 0xFFFF), c, "%s on a %dx%d matrix" % (c["label"], c["m"], c["n"])))
+    bad, n_ok = _dtype_sweep(seed)
+    ck.validated += n_ok
+    for c in bad[:5]:
+        cands.append(("dtype %s %dx%d %s" % (c["dtype"], c["m"], c["n"], c["A"]), c, c["label"]))
     lim = 3 if tier == "quick" else 4
     for job, r in harness.pmap(_ops_job, [(m, n) for m in range(1, lim + 1) for n in range(1, lim + 1)]):
         res = core.Result.from_json(r["res"])
@@ -369,7 +470,7 @@ def replay(case):
                 getattr(f2, name)(B.copy())
             except Exception:
                 pass
-    A = np.array(case["A"], dtype={"int8": np.int8, "int64": np.int64}[case["dtype"]]).reshape(case["m"], case["n"])
+    A = np.array(case["A"], dtype=np.dtype(case["dtype"])).reshape(case["m"], case["n"])
     m, n = A.shape
     A_before = A.copy()
     # brute-force oracles
@@ -378,7 +479,10 @@ def replay(case):
     for r in rows:
         span |= {tuple(a ^ b for a, b in zip(s, r)) for s in span}
     dim = len(span).bit_length() - 1
-    kernel = [x for x in itertools.product([0, 1], repeat=n) if all(sum(a * b for a, b in zip(r, x)) % 2 == 0 for r in rows)]
+    if n <= 12:
+        kernel = [x for x in itertools.product([0, 1], repeat=n) if all(sum(a * b for a, b in zip(r, x)) % 2 == 0 for r in rows)]
+    else:
+        kernel = None      # too large to enumerate: kernel checked by membership + dimension instead
     try:
         R, piv = f2.rref(A)
         R = np.array(R)
@@ -408,8 +512,11 @@ def replay(case):
         kspan = {tuple([0] * n)}
         for r in K:
             kspan |= {tuple(a ^ int(b) for a, b in zip(s, r)) for s in kspan}
-        if kspan != set(kernel):
+        if kernel is not None and kspan != set(kernel):
             return True, "null_space does not span exactly the kernel"
+        if kernel is None:
+            if len(kspan) != 2 ** (n - dim) or any(any(sum(a * b for a, b in zip(r, x)) % 2 for r in rows) for x in list(kspan)[:4096]):
+                return True, "null_space does not give a basis of the kernel (dimension %d expected)" % (n - dim)
         if not np.array_equal(A, A_before):
             return True, "input modified"
     except Exception as e:
